@@ -27,6 +27,8 @@ META["text"] += ' R4 also borrows C07.R6 (both samples sorted in place by the sa
 META["text"] += ' R1 also borrows C07.R2 and C07.R4: the selection reads styles and sample numbers only, not the `sampled` flags an earlier round wrote.'
 META["text"] += " R4 also borrows the threshold filter of C06.R4 (a card within one round's threshold is within the next round's)."
 META["text"] += ' R4 also: the order recorded when the cards are looked up is the draw order (= C07.R6 selection order).'
+META["text"] += " (R5, N, whole package) between rounds nothing re-configures an assertion's test object (who-may-write on its attributes): otherwise the earlier observations are re-scored and the history is not extended but rewritten."
+META["text"] += " (R6, N, frame condition on arguments) a round leaves the earlier rounds' records as they were, apart from the confirmed fields: every function in scope changes the objects it is handed only in the ways confirmed for it (aud.ARG_EFFECTS); references are followed through aliases, elements, attributes, loop variables, .get/.items/.values and np.asarray, resolved by the bindings that reach the use."
 
 
 def _norm_empty(e):
@@ -40,6 +42,10 @@ def _norm_empty(e):
 
 
 def run(chk):
+    from .. import aud as _aud8
+    _aud8.argument_effects(chk, 'C10.R6', 'shangrla/core/Audit.py', "a round leaves the earlier rounds' records as they were, apart from the confirmed fields", only=lambda q: q.startswith('CVR.'))
+    _aud8.argument_effects(chk, 'C10.R6', 'shangrla/core/Audit.py', "a round leaves the earlier rounds' records as they were, apart from the confirmed fields", only=lambda q: q.startswith('Assertion.'))
+    _aud8.argument_effects(chk, 'C10.R6', 'shangrla/core/Audit.py', "a round leaves the earlier rounds' records as they were, apart from the confirmed fields", only=lambda q: q.startswith('Audit.'))
     chk.explain(
         "R1 append-uniqueness and keep-earlier-cards on sampled_cvr_indices in consistent_sampling; R2 sticky confirmation "
         "(= C09.R3 and the who-may-write rule C09.R5); R3 overall p-value is the extremum of the history under random order for "
@@ -47,6 +53,7 @@ def run(chk):
     )
     chk.trust("set membership of hashable indices", "rules of C07, C09, C11, C06 as cited")
     chk.borrow(c07.r4_state, {"C07.R4": "C10.R1"})  # (first: stands even if the structure below is not recognised)
+    aud.test_config_writers(chk, "C10.R5", "a later round re-evaluates the earlier observations with the same configuration")
     f = c07.sampling_facts(chk)
     fn, w = f["fn"], f["while"]
     where = W("CVR.consistent_sampling")
